@@ -403,6 +403,28 @@ theorem C05_pf_dialogue_failure (L : PfLayout) (hL : L ∈ knownLayouts) (table 
 theorem C05_pf_peer_einval (fam : Nat) (ip : Text) (port : Int) :
     pfGetTcpDstip fam .einval ip port = .sockname := rfl
 
+/-- **Sessions: replies pair with requests.** For every interleaving of `HOST` lines (whose
+hosts-file rewrite may fail) and original-destination queries for any number of connections,
+each query reads the reply to *its own* request while the helper lives, and end-of-file (→
+`getsockname()` → dropped by the self guard) once a failed rewrite has ended the helper; no
+line is ever left over for a later query. -/
+theorem C05_pf_session_pairing (ops : List SOp) (s : Sess) (hp : s.pending = []) :
+    sessRun s ops = sessExpected s.alive ops := by
+  induction ops generalizing s with
+  | nil => rfl
+  | cons op ops ih =>
+    obtain ⟨pending, alive⟩ := s
+    simp only at hp
+    subst hp
+    cases op with
+    | host fails =>
+      cases alive <;> simp [sessRun, sessStep, sessExpected, ih]
+    | query reply =>
+      cases alive <;> simp [sessRun, sessStep, sessExpected, ih]
+
+example : sessRun {} [.query [1], .host false, .query [2], .host true, .query [3]] =
+    [some (.line [1]), none, some (.line [2]), none, some .eof] := by decide
+
 /-! ## 7. End to end -/
 
 /-- Second half shared by every TCP path: once `get_tcp_dstip` has produced `(ip, port)` with
